@@ -17,7 +17,7 @@
 //!   (conc (x<sequential plain> x<sequential colored> <#plain renderings != sequential>
 //!          <#colored != sequential> <#to_string != sequential> x<first deviating rendering | ->)+)
 //!   (unparsable)               the case text is not a definition
-use super::idl::{decorate, dump_idl, gen_idl, gen_valid_text, observe, render_idl, repo_idl_files};
+use super::idl::{decorate, deep_struct_families, dump_idl, gen_idl, gen_valid_text, observe, render_idl, repo_idl_files};
 use crate::rng::Rng;
 use crate::sx::{self, Sx};
 use crate::{Case, Ctx, Suite};
@@ -173,12 +173,33 @@ impl Suite for FmtSuite {
                 cases.push(case_fmt(w, &t, &["interleaved", width_tag(w)]));
             }
         }
+        // (6b) deep nesting: the formatter must cope with what the parser accepts (the property's
+        //      depth bound is 200); every level wraps at narrow widths, none at the huge ones
+        let mut deep: Vec<(usize, String, &'static str)> = Vec::new();
+        deep_struct_families(&[8, 16, 31, 32, 33, 40, 64, 100, 200], &mut deep);
+        let valid: Vec<&(usize, String, &'static str)> =
+            deep.iter().filter(|(_, _, tag)| *tag == "deep-struct:valid" || *tag == "deep-struct:valid-enum-leaf").collect();
+        for (k, (d, t, _)) in valid.iter().enumerate() {
+            if !ctx.thorough && (k % 3 != 0 || (*d >= 64 && k % 12 != 0)) {
+                continue;
+            }
+            let dtag = format!("depth:{}", d);
+            for w in [0usize, 20, 80, usize::MAX] {
+                cases.push(case_fmt(w, t, &["deep-nesting", &dtag, width_tag(w)]));
+            }
+        }
         // (7) the command-line tool: stdout must be the library's rendering of the file's text
         if std::path::Path::new(&cli_path()).exists() {
             for i in 0..(if ctx.thorough { 60 } else { 12 }) {
                 let t = gen_valid_text(&mut rng, 4, 2, i % 3).1.concat();
                 for w in [Some(0usize), Some(40), Some(80), None] {
                     cases.push(case_cli(w, i % 2 == 0, &t, "cli:small"));
+                }
+            }
+            for (k, (_, t, _)) in valid.iter().enumerate() {
+                if k % 29 == 0 {
+                    cases.push(case_cli(Some(80), false, t, "cli:deep"));
+                    cases.push(case_cli(None, false, t, "cli:deep"));
                 }
             }
             //   large files (8-40 KiB) with a multi-byte character of a doc comment at / across every
